@@ -773,6 +773,11 @@ func (t EnumType) MemberForValue(value any) (EnumValue, bool) {
 	}
 	if t.Values[0].Type.Scalar.ScalarKind != KindString {
 		equal = func(a, b any) bool {
+			// a value that is not a number is not a member of a numeric enum
+			if !tools.IsNumber(a) || !tools.IsNumber(b) {
+				return false
+			}
+
 			return tools.AnyToInt64(a) == tools.AnyToInt64(b)
 		}
 	}
